@@ -40,6 +40,14 @@ def check(ctx: Ctx):
         render.check_renderer(ctx, cname, rules=("DIST", "SHARP"))
     render.check_polar(ctx, rules=("METRIC",))
     render.check_sum_clip(ctx)
+    # duplicates from periodic images are removed by remove_overlapping(grid=grid): its distance matrix must use the
+    # grid's periodic metric on the (Cartesian) droplet positions
+    from ..rules import collections as col
+
+    sub = Ctx(ctx.model, ctx.prop, ctx.tier)
+    col.check_pairwise(sub)
+    ctx.findings.extend(f for f in sub.findings if f.rule == "METRIC")
+    ctx.functions |= sub.functions
     table = c12.formulas(ctx)
     c12.identities(ctx, table)
     ctx.expect("FRAME", 3)
@@ -50,7 +58,7 @@ def check(ctx: Ctx):
     ctx.expect("PADSHIFT", 1)
     ctx.expect("DIST", 2)
     ctx.expect("SHARP", 2)
-    ctx.expect("METRIC", 2)
+    ctx.expect("METRIC", 3)
     ctx.expect("SUMCLIP", 3)
     ctx.expect("FORMULA", 24)
     ctx.trust("scipy.ndimage.center_of_mass returns array-index positions (cell i ↦ i); slice .start/.stop are cell-boundary coordinates",
